@@ -12,6 +12,9 @@ MODELLED = ("plumbing/object/commit_walker.go (commitPreIterator, commitPostIter
             "commit_walker_limit.go, repository.go Log/log/logAll/commitIterFunc, commitgraph/commitnode_walker_ctime.go "
             "(Model/CommitWalk.v, Model/LogWalk.v); exercised only (oracle, no model): the commit-graph topological node "
             "walkers (topo/date/author order) and the path filters")
+LEVEL_NOTE = ("trusted: Coq 8.16.1 kernel; the correspondence harness; theorems are about Model/CommitWalk.v + Model/LogWalk.v "
+              "(pre-order, post-order, first-parent, BFS, committer-time incl. the gods binary heap, limit iterator, Log(All)), "
+              "for ALL finite closed DAGs and timestamps; the commit-graph topological node walkers are exercised by the oracle only")
 TRUSTED = [
     "C-impl: Repository.Log and commitgraph.NewCommitNodeIter* (object- and commit-graph-backed) vs Model/LogWalk on every case",
     "C-git: the reachable set is taken from git rev-list [--first-parent] [--max-age/--min-age] on DAGs materialised with git fast-import",
